@@ -54,7 +54,60 @@ class _Stat:
         return getattr(self._st, k)
 
 
+_real_exists = pathlib.Path.exists
+_real_glob = pathlib.Path.glob
+_real_unlink = pathlib.Path.unlink
+
+
+def _watched(path) -> bool:
+    return bool(_WATCH) and str(path).startswith(_WATCH[0])
+
+
+def _exists(self, *a, **k):
+    if _watched(self):
+        threads.point(("fs.exists", self.name))
+    return _real_exists(self, *a, **k)
+
+
+def _glob(self, pattern, *a, **k):
+    if _watched(self):
+        threads.point(("fs.glob",))
+        return iter(sorted(_real_glob(self, pattern, *a, **k)))  # listing is one atomic step, in a fixed order
+    return _real_glob(self, pattern, *a, **k)
+
+
+_real_replace = pathlib.Path.replace
+
+
+def _replace(self, target):
+    if _watched(self):
+        threads.point(("fs.replace", self.name))
+        _CLOCK[0] += 1
+        _CTIME.pop(str(self), None)
+        _CTIME[str(target)] = _CLOCK[0]  # a rename updates the ctime of the file
+    return _real_replace(self, target)
+
+
+class _OsShim:
+    """pipefunc.cache.os stand-in: logical processes are threads of one OS process, so give each its own pid"""
+
+    def getpid(self):
+        s = threads.current()
+        return 100000 + (s.cur if s is not None and s.cur is not None else 0)
+
+    def __getattr__(self, k):
+        return getattr(os, k)
+
+
+def _unlink(self, *a, **k):
+    if _watched(self):
+        threads.point(("fs.unlink", self.name))
+    return _real_unlink(self, *a, **k)
+
+
 def _stat(self, *a, **k):
+    if _watched(self):
+        threads.point(("fs.stat", self.name))
     st = _real_stat(self, *a, **k)
     s = str(self)
     if _WATCH and s.startswith(_WATCH[0]) and s in _CTIME:
@@ -63,16 +116,48 @@ def _stat(self, *a, **k):
 
 
 def _open(self, mode="r", *a, **k):
+    if _watched(self):
+        threads.point(("fs.open", self.name, mode))
     s = str(self)
     if _WATCH and s.startswith(_WATCH[0]) and any(c in mode for c in "wax+"):
         _CLOCK[0] += 1
         _CTIME[s] = _CLOCK[0]
+        return _WFile(_real_open(self, mode, *a, **k))
     return _real_open(self, mode, *a, **k)
+
+
+class _WFile:
+    """write handle under the cache directory: the first write is a scheduling point (the file exists but is still empty)"""
+
+    def __init__(self, f):
+        self._f = f
+        self._first = True
+
+    def write(self, data):
+        if self._first:
+            self._first = False
+            threads.point(("fs.write",))
+        return self._f.write(data)
+
+    def __enter__(self):
+        return self
+
+    def __exit__(self, *a):
+        self._f.close()
+
+    def __getattr__(self, k):
+        return getattr(self._f, k)
 
 
 def _install_fs_clock():
     pathlib.Path.stat = _stat
     pathlib.Path.open = _open
+    pathlib.Path.exists = _exists
+    pathlib.Path.glob = _glob
+    pathlib.Path.unlink = _unlink
+    pathlib.Path.replace = _replace
+    if hasattr(pc, "os") and not isinstance(pc.os, _OsShim):
+        pc.os = _OsShim()
 
 
 # ------------------------------------------------------------------------------------------------
@@ -557,6 +642,99 @@ def inits(cfg):
 
 
 # ------------------------------------------------------------------------------------------------
+# Part D: two processes sharing one DiskCache directory (each with its own DiskCache object); every file-system call
+# under the cache directory is a scheduling point
+# ------------------------------------------------------------------------------------------------
+def _disk_objects(cfg, folder, n):
+    return [make({**cfg, "shared": False}, folder) for _ in range(n)]
+
+
+def _disk_final(folder, c):
+    files = {}
+    for f in sorted(_real_glob(pathlib.Path(folder), "*.pkl")):
+        import pickle
+        with _real_open(f, "rb") as fh:
+            try:
+                files[_key_of_file(c, f)] = pickle.load(fh)  # noqa: S301
+            except Exception:  # noqa: BLE001
+                files[_key_of_file(c, f)] = "<corrupt>"
+    return tuple(sorted(files.items()))
+
+
+def _exec_disk(cfg, init, prog, chooser=None, order=None):
+    """interleaved (chooser) or sequential-atomic (order = list of (thread, op index)) execution"""
+    folder = boot.mkscratch("c14d-")
+    _WATCH[:] = [folder]
+    _CTIME.clear()
+    _CLOCK[0] = 0
+    try:
+        objs = _disk_objects(cfg, folder, len(prog))
+        for op in init:
+            apply(objs[0], op, cfg, folder)
+        results = {}
+
+        def do(tid, i):
+            _, ret = apply(objs[tid], prog[tid][i], cfg, folder)
+            results[(tid, i)] = (ret[0], ret[1]) if ret[0] == "ret" else ("exc", ret[1], ret[2])
+
+        if order is not None:
+            for tid, i in order:
+                do(tid, i)
+            status = "ok"
+        else:
+            s = threads.Sched(chooser)
+            for tid, ops in enumerate(prog):
+                s.spawn(tid, (lambda tid=tid, ops=ops: [do(tid, i) for i in range(len(ops))]))
+            status = s.run()
+        return status, results, _disk_final(folder, objs[0])
+    finally:
+        _WATCH[:] = []
+        shutil.rmtree(folder, ignore_errors=True)
+
+
+def run_disk_program(cfg, init, prog, bound, acc=None):
+    idx = [(t, i) for t, ops in enumerate(prog) for i in range(len(ops))]
+    seq = set()
+    for perm in itertools.permutations(idx):
+        if any(perm.index((t, i)) > perm.index((t, i + 1)) for t, ops in enumerate(prog) for i in range(len(ops) - 1)):
+            continue
+        _, res, final = _exec_disk(cfg, init, prog, order=list(perm))
+        seq.add((tuple(sorted(res.items())), final))
+    seq_raises = any(any(r[0] == "exc" for _, r in res) for res, _ in seq)
+    out, n, outcomes = [], 0, set()
+    for ch, (status, results, final) in explore.choice_dfs(lambda c: _exec_disk(cfg, init, prog, chooser=c), bound):
+        n += 1
+        key = tuple(sorted(results.items()))
+        outcomes.add((key, final))
+        base = {"cache": "disk", "part": "D", "lru": bool(cfg.get("lru"))}
+        if status != "ok":
+            out.append(({"kind": status, **base}, f"{status} in disk program {prog} after {init}", ch.choices))
+        elif any(r[0] == "exc" for r in results.values()) and not seq_raises:
+            r = next(r for r in results.values() if r[0] == "exc")
+            out.append(({"kind": "raised", "exc": r[1], "site": r[2], **base},
+                        f"DiskCache max_size={cfg['max_size']} lru={cfg.get('lru')} init={init} two processes {prog}: {r[1]} at {r[2]} under schedule {ch.choices}", ch.choices))
+        elif (key, final) not in seq:
+            what = "returns" if not any(key == res for res, _ in seq) else "final-state"
+            over = what == "final-state" and len(final) < min(len(f) for _, f in seq)
+            out.append(({"kind": "not-linearizable-" + what, "over_eviction": over, **base},
+                        f"DiskCache max_size={cfg['max_size']} lru={cfg.get('lru')} init={init} two processes {prog}: returns {dict(results)} files {final} match no sequential order; schedule {ch.choices}", ch.choices))
+    if acc is not None:
+        acc.transitions += n
+        acc.traces += n
+        for o in outcomes:
+            acc.outcome(("D", str(prog), str(o)))
+    return out, n, len(outcomes)
+
+
+def disk_programs():
+    single = [["put", "a", 2], ["put", "b", 1], ["get", "a"], ["clear"], ["put", "c", 1]]
+    progs = []
+    for x, y in itertools.combinations_with_replacement(range(len(single)), 2):
+        progs.append([[single[x]], [single[y]]])
+    return progs
+
+
+# ------------------------------------------------------------------------------------------------
 # Part C: two real processes, sequential alternation, real Manager
 # ------------------------------------------------------------------------------------------------
 def run_two_process(cfg, hist, assign):
@@ -651,15 +829,13 @@ def plan(tier, seed):
                 progs = programs(cfg)
                 for pi in range(len(progs)):
                     units.append((f"B-interleavings-preemptions<={bound}", ("B", cfg, ii, pi, bound)))
-    hists = []
-    for kind in ("lru", "hybrid"):
-        cfg = {"kind": kind, "max_size": 1}
-        put = (lambda k, v: ["put", k, v, 1.0]) if kind == "hybrid" else (lambda k, v: ["put", k, v])
-        alpha = [put("a", 1), put("b", 2), ["get", "a"], ["get", "b"]]
-        L = 2 if tier == "quick" else 3
-        for n in range(1, L + 1):
-            for h in itertools.product(alpha, repeat=n):
-                hists.append((cfg, [list(x) for x in h]))
+    dbound = 1 if tier == "quick" else 2
+    for lru in (False, True):
+        for ms in (1, 2):
+            cfg = {"kind": "disk", "max_size": ms, "lru": lru, "lru_size": 2}
+            for ii, init in enumerate(([["put", "a", 1]], [["put", "a", 1], ["put", "b", 1]])):
+                for pi in range(len(disk_programs())):
+                    units.append((f"D-disk-two-processes-preemptions<={dbound}", ("D", cfg, init, pi, dbound)))
     nchunk = 16
     for c in range(nchunk):
         units.append(("C-two-real-processes", ("C", c, nchunk, tier)))
@@ -711,6 +887,18 @@ def run_unit(unit):
             acc.violation(sig, {"part": "B", "cfg": cfg, "init": init, "prog": prog, "choices": choices}, text)
         if pi == 0:
             acc.sample({"part": "B", "cfg": cfg, "init": init, "prog": prog, "executions": n, "distinct_outcomes": nout})
+    elif part == "D":
+        _, cfg, init, pi, bound = unit
+        prog = disk_programs()[pi]
+        vs, n, nout = run_disk_program(cfg, init, prog, bound, acc)
+        acc.states += 1
+        acc.case(hash(("D", str(cfg), str(init), pi)), n=n)
+        acc.stratum("D-programs")
+        acc.stratum("D-executions", n)
+        if nout > 1:
+            acc.stratum("D-programs-with->1-outcome")
+        for sig, text, choices in vs:
+            acc.violation(sig, {"part": "D", "cfg": cfg, "init": init, "prog": prog, "choices": choices}, text)
     elif part == "C":
         _, c, n, tier = unit
         for k, (cfg, hist, assign) in enumerate(_c_histories(tier)):
@@ -752,4 +940,25 @@ def replay(art):
         return []
     if art["part"] == "C":
         return [s for s, _ in run_two_process(art["cfg"], art["hist"], art["assign"])]
+    if art["part"] == "D":
+        cfg, init, prog = art["cfg"], art["init"], art["prog"]
+        status, results, final = _exec_disk(cfg, init, prog, chooser=explore.Chooser(art["choices"]))
+        base = {"cache": "disk", "part": "D", "lru": bool(cfg.get("lru"))}
+        if status != "ok":
+            return [{"kind": status, **base}]
+        idx = [(t, i) for t, ops in enumerate(prog) for i in range(len(ops))]
+        seq = set()
+        for perm in itertools.permutations(idx):
+            if any(perm.index((t, i)) > perm.index((t, i + 1)) for t, ops in enumerate(prog) for i in range(len(ops) - 1)):
+                continue
+            _, res, fin = _exec_disk(cfg, init, prog, order=list(perm))
+            seq.add((tuple(sorted(res.items())), fin))
+        exc = next((r for r in results.values() if r[0] == "exc"), None)
+        if exc and not any(any(r[0] == "exc" for _, r in res) for res, _ in seq):
+            return [{"kind": "raised", "exc": exc[1], "site": exc[2], **base}]
+        key = tuple(sorted(results.items()))
+        if (key, final) not in seq:
+            what = "returns" if not any(key == res for res, _ in seq) else "final-state"
+            return [{"kind": "not-linearizable-" + what, "over_eviction": what == "final-state" and len(final) < min(len(f) for _, f in seq), **base}]
+        return []
     return []
